@@ -226,7 +226,7 @@ class HttpDigestAuthorization(object):
             raise ValueError(
                 self.errmsg('Not all required parameters are present.'))
 
-        if self.qop:
+        if self.qop is not None:
             if self.qop not in valid_qops:
                 raise ValueError(
                     self.errmsg("Unsupported value for qop: '%s'" % self.qop))
